@@ -225,10 +225,53 @@ def plan(tier, seed):
         s["idx"] = i
     # specials: 0x20/0xBF, PRE PRE, PRE at end
     specs.append({"special": True, "seed": seed, "tier": tier, "idx": len(specs)})
+    # the same encodings decoded in two processes in opposite orders (forms that share a mnemonic back to back): what one
+    # form leaves behind in the process must not change what the consumers say about the next one
+    for order in ("asc", "desc"):
+        specs.append({"order": order, "seed": seed, "tier": tier, "idx": 9000 + len(specs)})
     return specs
 
 
+def run_order(spec) -> Result:
+    import hashlib
+    from sc62015.pysc62015.instr.opcode_table import OPCODES
+    res = Result()
+    _setup()
+    groups = {}
+    for opcode, d in sorted(OPCODES.items()):
+        cls = d[0] if isinstance(d, tuple) else d
+        groups.setdefault(cls.__name__, []).append(opcode)
+    for pfx in enc.PREFIXES:
+        for name, ops in sorted(groups.items()):
+            order = ops if spec["order"] == "asc" else list(reversed(ops))
+            for op in order:
+                for b2 in (0x04, 0x24, 0x86, 0xC0):
+                    buf = enc.head_bytes(pfx, op, b2, enc.payload(spec["seed"], pfx, op, b2, n=6))
+                    out, errs = consumers(buf, 0x4321)
+                    res.evaluations += 1
+                    res.monitor("order_independence")
+                    h = hashlib.sha256(repr((out, errs)).encode()).hexdigest()[:16]
+                    res.table("order_hash", f"{buf.hex()}={h}")
+    return res
+
+
+def finalize(merged: Result, tier, seed):
+    seen = {}
+    for key in merged.tables.pop("order_hash", {}):
+        buf, h = key.split("=")
+        seen.setdefault(buf, set()).add(h)
+    bad = sorted(b for b, hs in seen.items() if len(hs) > 1)
+    merged.counters["order_compared_encodings"] = len(seen)
+    if bad:
+        merged.violation({"clause": "history_dependent", "how": "decode_order_across_processes",
+                          "op": bad[0][2:4] if bad[0][:2] in ("21", "22", "23", "24", "25", "26", "27", "30", "31", "32", "33",
+                                                                "34", "35", "36", "37") else bad[0][:2]},
+                         {"encodings": bad[:12], "addr": 0x4321}, {"count": len(bad)})
+
+
 def run_shard(spec) -> Result:
+    if spec.get("order"):
+        return run_order(spec)
     res = Result()
     _setup()
     seed = spec["seed"]
